@@ -196,6 +196,7 @@ class Knobs:
     def reset_counts(self):
         self.nreads = 0
         self.nwrites = 0
+        self.wcount = {}            # writes seen per served file name
         self.empty_run = 0          # consecutive reads that returned no bytes
         self.max_empty_run = 0
         self.spinning = threading.Event()
@@ -259,13 +260,16 @@ def make_server_classes():
             kn = self.knobs
             if not self.watched:
                 return SFTPHandle.write(self, offset, data)
-            idx = kn.nwrites
             kn.nwrites += 1
-            if idx in kn.write_fault:
-                kn.write_log.append((offset, len(data), kn.write_fault[idx]))
-                return kn.write_fault[idx]
+            name = os.path.basename(self.filename)
+            idx = kn.wcount.get(name, 0)              # faults are positions among the writes to ONE file:
+            kn.wcount[name] = idx + 1                 # {3: code} = 4th write to "w", {("w2", 0): code} = 1st to "w2"
+            fault = kn.write_fault.get((name, idx), kn.write_fault.get(idx) if name == "w" else None)
+            if fault is not None:
+                kn.write_log.append((offset, len(data), fault, name))
+                return fault
             code = SFTPHandle.write(self, offset, data)
-            kn.write_log.append((offset, len(data), code))
+            kn.write_log.append((offset, len(data), code, name))
             return code
 
     class Iface(SFTPServerInterface):
@@ -760,6 +764,64 @@ class StreamRunner:
 
 # --------------------------------------------------------------------------- client programs (C28, C29, C30 client half)
 
+class RendezvousLock:
+    """stands in for SFTPClient._lock (same acquire / release / with protocol, delegating to the real lock).
+    A thread that is about to take the lock inside SFTPClient._async_request is parked for up to `wait` seconds
+    until a second thread is about to do the same, then both go on: a schedule the OS produces once in a while
+    (application thread and prefetch thread requesting at the same moment) is produced every time.  Everything
+    else passes straight through."""
+
+    def __init__(self, real, wait=0.06):
+        self.real, self.wait = real, wait
+        self.cv = threading.Condition()
+        self.parked = 0
+        self.met = 0
+
+    def _gate(self):
+        import sys
+        f = sys._getframe(2)
+        if f.f_code.co_name != "_async_request":
+            return
+        with self.cv:
+            if self.parked:
+                self.met += 1
+                self.cv.notify_all()          # the second one: release the first, go on
+                return
+            self.parked += 1
+            seen = self.met
+            self.cv.wait_for(lambda: self.met != seen, self.wait)
+            self.parked -= 1
+
+    def acquire(self, *a, **k):
+        self._gate()
+        return self.real.acquire(*a, **k)
+
+    def release(self):
+        return self.real.release()
+
+    def __enter__(self):
+        self._gate()
+        return self.real.__enter__()
+
+    def __exit__(self, *a):
+        return self.real.__exit__(*a)
+
+
+def delay_prefetch_registration(client, wait=0.08):
+    """lets the application thread handle the response to a prefetch request before the prefetch thread has recorded
+    the request's number in SFTPFile._prefetch_extents: the prefetch thread is held for `wait` seconds between
+    SFTPClient._async_request returning and its next statement (a schedule the OS produces once in a while)"""
+    import sys
+    real = client._async_request
+
+    def slow(fileobj, t, *args):
+        num = real(fileobj, t, *args)
+        if sys._getframe(1).f_code.co_name == "_prefetch_thread":
+            time.sleep(wait)
+        return num
+    client._async_request = slow
+
+
 def quiet_thread_errors():
     """paramiko's prefetch threads die with socket.error / EOFError once the harness has closed a wedged session;
     keep those tracebacks off stderr (anything else is still printed)"""
@@ -785,7 +847,7 @@ class ProgramRunner:
     confirmed = {}          # call signature -> number of blocked calls confirmed by the long wait (per process)
 
     def __init__(self, root, size, seed, short=False, quiet=0.25, confirm=2.0, deadline=30.0, faults=None,
-                 bufsize=-1, caps=None, stall=6.0):
+                 bufsize=-1, caps=None, stall=6.0, gate=None):
         import random
         quiet_thread_errors()
         self.rnd = random.Random(seed)
@@ -808,8 +870,13 @@ class ProgramRunner:
         self.worker = Worker(None)
         self.quiet, self.confirm, self.deadline = quiet, confirm, deadline
         self.bufsize, self.stall = bufsize, stall
+        if gate == "ids":
+            self.client._lock = RendezvousLock(self.client._lock)
+        elif gate == "extent":
+            delay_prefetch_registration(self.client)
         self.fr = None
         self.fw = None
+        self.fw2 = None
         self.files = []
         self.wedged = False
 
@@ -862,6 +929,15 @@ class ProgramRunner:
             kn.read_fault = {op["pos"]: op["code"]}
         calls = []
         cb = (lambda a, b: calls.append((a, b))) if op.get("callback") else None
+        if op.get("callback") == "log":
+            # a progress callback that appends to a pipelined log file on the same session
+            logf = self.client.open("w2", "wb")
+            logf.set_pipelined(True)
+            self.files.append(logf)
+
+            def cb(a, b):          # noqa: F811
+                calls.append((a, b))
+                logf.write(b"%d/%d\n" % (a, b))
         if op["op"] == "put":
             src = self.rnd.randbytes(op["size"])
             local = os.path.join(self.root, "..", os.path.basename(self.root) + ".src")
@@ -893,8 +969,10 @@ class ProgramRunner:
             else:
                 got = open(local, "rb").read() if os.path.exists(local) else None
             rec["same"] = got == self.data
-        rec["rejected"] = sum(1 for _, _, code in kn.write_log if code != 0)
+        rec["rejected"] = sum(1 for x in kn.write_log if x[2] != 0 and x[3] == "w")
         rec["callbacks"] = len(calls)
+        rec["callback"] = bool(op.get("callback"))
+        rec["second"] = op.get("callback") == "log"
         kn.read_fault, kn.write_fault = {}, {}
         return outcome
 
@@ -1012,7 +1090,31 @@ class ProgramRunner:
                 f = self.writer()
                 outcome = self.call(("closeW",), f.close)
                 self.fw = None
-                rec["rejected"] = sum(1 for _, _, code in self.kn.write_log if code != 0)
+                rec["rejected"] = sum(1 for x in self.kn.write_log if x[2] != 0 and x[3] == "w")
+            elif k == "writeB":
+                # a second pipelined file object on the same session (its statuses interleave with those of "w")
+                bad2 = None
+                if self.fw2 is None:
+                    def op2():
+                        f2 = self.client.open("w2", "wb")
+                        f2.set_pipelined(True)
+                        return f2
+                    r2 = self.call(("open",), op2)
+                    if r2[0] == "ok":
+                        self.fw2 = r2[1]
+                        self.files.append(self.fw2)
+                    else:
+                        bad2 = r2
+                if bad2 is not None:
+                    outcome = bad2
+                else:
+                    f2 = self.fw2
+                    blob2 = self.rnd.randbytes(op["n"])
+
+                    def body2():
+                        for _ in range(op["count"]):
+                            f2.write(blob2)
+                    outcome = self.call(("writeB",), body2)
             elif k == "closeR":
                 outcome = self.call(("closeR",), self.reader().close)
                 self.fr = None
